@@ -521,19 +521,19 @@ def r05_7(prog, rep):
 
 def run(prog, rep, tier, snap):
     rep.rule("R05.1", "every emitted keyword/parameter/part/component/method is accepted by the reader", 50)
-    r05_1(prog, rep)
+    rep.call(r05_1, prog, rep)
     rep.rule("R05.2", "field pairing between parser cases and send_task", 20)
-    r05_2(prog, rep)
-    r05_2b(prog, rep)
+    rep.call(r05_2, prog, rep)
+    rep.call(r05_2b, prog, rep)
     rep.rule("R05.3", "nominal typing of the container family (shared with C19)", 30)
-    bitint.r05_3(prog, rep)
+    rep.call(bitint.r05_3, prog, rep)
     rep.rule("R05.4", "sentinel encodings of umask and max-simul round-trip over the whole field domain", 8)
-    encodings.r05_4(prog, rep)
-    r05_4b(prog, rep)
+    rep.call(encodings.r05_4, prog, rep)
+    rep.call(r05_4b, prog, rep)
     rep.rule("R05.5", "every freed/cloned sub-stream is serialised", 3)
-    r05_5(prog, rep)
+    rep.call(r05_5, prog, rep)
     rep.rule("R05.7", "calendar-level defaults fill only what the event leaves unset", 4)
-    r05_7(prog, rep)
+    rep.call(r05_7, prog, rep)
     from ..rules import valist
     rep.rule("R05.6", "the buffered writer never formats from a consumed va_list (records larger than the write buffer)", 1)
     valist.r_valist(prog, rep, "R05.6", only=("fdprintf",))
